@@ -58,7 +58,7 @@ fn cli_factors(out: &str) -> String {
 fn do_cli(ctx: &mut Ctx, fld: &Field, p: &BigInt, reference: &str) {
     let cfg = format!(
         "to_find = ['prime-decomposition']\n[input.polynomial_and_primes]\npolynomial = {}\nprimes = ['{}']\n",
-        toml_list(&fld.f),
+        toml_list_z(&fld.f, variant_of(&[show_ints(&fld.f), p.to_string()]) % 3),
         p
     );
     if let Some(out) = run_cli(&cfg) {
